@@ -85,8 +85,9 @@ func caseC05(c *Ctx) {
 	for _, r := range forest {
 		nNodes += r.Count()
 	}
+	errVariant := c.Draw(5)
 	mk := func(failAt int) *Env {
-		e := &Env{Doc: doc, Reader: noReaderFault, Writer: noWriterFault, Cb: CbPlan{FailAt: failAt}}
+		e := &Env{Doc: doc, Reader: noReaderFault, Writer: noWriterFault, Cb: CbPlan{FailAt: failAt, ErrVariant: errVariant}}
 		if op.FromRoot {
 			e.Tree = forest[0]
 		}
@@ -106,6 +107,9 @@ func caseC05(c *Ctx) {
 	base := run(-1)
 	if len(base.Panics) > 0 || base.Err != nil || base.Hang || base.BubbleErr != "" {
 		c.Failf("C05:fault-free-walk-failed:"+form, "err=%s panics=%v hang=%v bubble=%s", errStr(base.Err), base.Panics, base.Hang, base.BubbleErr)
+	}
+	if base.StaleNodes != "" {
+		c.Failf("C05:walker-node-changes-after-its-visit:"+form, "%s", base.StaleNodes)
 	}
 	want := modelVisits(forest, branch)
 	if len(base.Visits) != len(want) {
